@@ -26,6 +26,11 @@ def scenarios(tier):
     L = []
     L.append((SC.scn("noisy-j1", w, ["redo --no-color top"], visible=VIS, log_mode=True, post_cmds=post), 1 if q else 2))
     L.append((SC.scn("noisy-j2", w, ["redo --no-color -j2 top"], visible=VIS, log_mode=True, post_cmds=post), 1 if q else 2))
+    # the follower polls by default after every partial write (so that every fragment is read by a separate poll)
+    L.append((SC.scn("noisy-j1-follower-polls-every-fragment", w, ["redo --no-color top"], visible=VIS, log_mode=True,
+                     post_cmds=post, poll_at="h:"), 0 if q else 1))
+    L.append((SC.scn("noisy-j2-follower-polls-every-fragment", w, ["redo --no-color -j2 top"], visible=VIS, log_mode=True,
+                     post_cmds=post, poll_at="h:"), 0 if q else 1))
     if not q:
         L.append((SC.scn("noisy-ifchange-j1", w, ["redo-ifchange top"], visible=VIS, log_mode=True, post_cmds=post), 2))
         L.append((SC.scn("noisy-record-like-line-j1", noisy_world(2), ["redo --no-color top"], visible=VIS, log_mode=True,
@@ -36,7 +41,8 @@ def scenarios(tier):
 HDR = re.compile(r"^redo\s+(\S.*?)(?: \((?:resumed|done|exit \d+)\))?$")
 RAW = re.compile(r"^@@REDO:([a-z]+):\d+:[0-9.]+@@ (.*)$")
 TAG = re.compile(r"^L (\S+) (\d) (.*)$")
-EXPECT = {1: "whole line", 2: "first half-second half", 3: "x" * 20000, 4: "after dependencies"}
+EXPECT = {1: "whole line", 2: "first half-second half", 5: "p1-p2-p3-p4", 3: "x" * 20000, 4: "after dependencies"}
+ORDER = [1, 2, 5, 3, 4]
 
 
 def parse_pretty(text):
@@ -91,8 +97,8 @@ def judge_stream(name, pairs, targets, scn, out):
             out.append(({"kind": "log-line-under-wrong-target", "scenario": scn["name"], "stream": name, "target": t, "seq": seq},
                         {"header": cur}))
     for t, seqs in seen.items():
-        if seqs != [1, 2, 3, 4]:
-            what = "missing" if len(seqs) < 4 else ("duplicated" if len(set(seqs)) < len(seqs) else "reordered")
+        if seqs != ORDER:
+            what = "missing" if len(seqs) < len(ORDER) else ("duplicated" if len(set(seqs)) < len(seqs) else "reordered")
             out.append(({"kind": "log-lines-" + what, "scenario": scn["name"], "stream": name, "target": t}, {"seqs": seqs}))
 
 
@@ -125,8 +131,9 @@ def main(tier):
     rc2 = e2prop.run_property(
         PID, tier, scenarios(tier), oracle,
         extra={"e4_records": cov4, "e4_violations": v4.count},
-        rule="E2: world top -> {a -> c, b}; every script writes tagged stderr lines: a whole line, a line written in two halves with a "
-             "scheduling point in between, a 20 kB line, a line after its dependencies; default log mode, so the real redo-log "
+        rule="E2: world top -> {a -> c, b}; every script writes tagged stderr lines: a whole line, a line written in two halves and a "
+             "line written in four pieces with a scheduling point after every piece (in two scenarios the follower polls by default "
+             "after every piece), a 20 kB line, a line after its dependencies; default log mode, so the real redo-log "
              "follower runs inside the scheduled tree and its polls are scheduling points; -j1 and -j2; every schedule with <= b "
              "deviations (quick 1, thorough 2). Oracle: in the live output and in later `redo-log -r top` replays (pretty and raw) each "
              "target's tagged lines appear exactly once, in order, byte-complete and under that target's header. "
@@ -134,7 +141,7 @@ def main(tier):
              "tokens from {a, space, @, :, '@@ ', '@@REDO:', tab, u-umlaut}: parse(format(m)) == m, format is a fixpoint, done-text splits",
         assumptions=["script lines that themselves parse as records are in-band signalling by design (thorough scenario, known finding if rewritten)",
                      "no newline inside a record text"],
-        budget_s=45 if tier == "quick" else 2400)
+        budget_s=600 if tier == "quick" else 3000)
     return 1 if (rc4 or rc2) else 0
 
 
